@@ -15,7 +15,7 @@ pub fn meta() -> PropertyMeta {
     PropertyMeta {
         id: "C19",
         level: "exploration",
-        rule: "list ASTs generated from the SCPI 8.3 grammar (numeric lists: 1..8 entries, each an NRf with signs / decimals / leading dot / exponent or a range a:b; channel lists: 1..8 entries, each a 1..3-dimensional spec with values 0..10^6 (some signed), a range of equal dimension, or a quoted path name with any 7-bit content) rendered to text together with the expected entries; the single-point corruptions the property lists (comma removed before a signed entry, leading comma, doubled comma, range ends of different dimension, third range end, foreign character #, %, letter) applied at a generated position; plus ALL strings up to length 6 (quick) / 8 (thorough) over the 14-symbol list alphabet judged by a reference recogniser with three verdicts. Added: lists of 2^8 / 2^16 +- 1 entries, ranges, path names; specs of 255..300 dimensions; zero-padded numbers of every width 1..300. Non-trivial: list with a range and (a multi-dimensional spec or a signed entry), or any corrupted list, or an enumerated string with a definite verdict and at least two entries.",
+        rule: "list ASTs generated from the SCPI 8.3 grammar (numeric lists: 1..8 entries, each an NRf with signs / decimals / leading dot / exponent or a range a:b; channel lists: 1..8 entries, each a 1..3-dimensional spec with values 0..10^6 (some signed), a range of equal dimension, or a quoted path name with any 7-bit content) rendered to text together with the expected entries; the single-point corruptions the property lists (comma removed before a signed entry, leading comma, doubled comma, range ends of different dimension, third range end, foreign character #, %, letter) applied at a generated position; plus ALL strings up to length 6 (quick) / 8 (thorough) over the 14-symbol list alphabet judged by a reference recogniser with three verdicts. Added: lists of 2^8 / 2^16 +- 1 entries, ranges, path names; specs of 255..300 dimensions; zero-padded numbers of every width 1..300. Path names of 250 .. 1 000 000 bytes in either quote style with doubled quotes at the start, the end and the 4096 mark. Non-trivial: list with a range and (a multi-dimensional spec or a signed entry), or any corrupted list, or an enumerated string with a definite verdict and at least two entries.",
         assumptions: &[
             "lenient acceptances the property does not list (trailing comma, path name glued to a spec, white space, '!!') are not judged",
             "for a foreign character or third range end inside entry k the complete part of entry k may be yielded before the error",
